@@ -274,6 +274,13 @@ impl<'a> ScopeGen<'a> {
                         k: *self.rng.pick(&[-3, -1, 1, 2, 3, 7]),
                     }];
                 }
+                if self.rng.chance(1, 10) {
+                    let idx = self.reg_idx(RegKind::Count);
+                    return vec![Op::FailedGlobalArith {
+                        idx,
+                        mul: self.rng.chance(1, 2),
+                    }];
+                }
                 if self.rng.chance(1, 3) {
                     let t = self.target();
                     vec![Op::AdvanceViaAlias { g: self.g(), t, d }]
